@@ -325,6 +325,24 @@ def csekAnswer (ws : List String) : String :=
     "hoisted " ++ (if ks.isEmpty then "-" else ",".intercalate ks)
   | _, _ => "bad-line"
 
+/-- `algopt G i0 step bound LIT NONIV DERIVED STMTS BRK`: does the closed-form elimination fire? -/
+def algoptAnswer (ws : List String) : String :=
+  match ws with
+  | [g, i0, st, b, lit, nonIv, der, stm, brk] =>
+    match guardOf g, ints [i0, st, b], [lit, nonIv, der, stm].mapM String.toNat? with
+    | some g, some [i0, st, b], some [lit, nonIv, der, stm] =>
+      let bv : Option BrkVal :=
+        if brk == "counter" then some .counter else if brk == "lit" then some (.lit 7)
+        else if brk == "giv" then some (.giv 0) else if brk == "outer" then some (.outer 0)
+        else if brk == "none" then none else some .inner
+      let A : AlgLoop := { g := g, i0 := i0, step := st, bound := b, literals := lit == 1, nonIv := nonIv, derived := der,
+                           stmts := stm, givs := [(0, 5)], brk := bv }
+      match algOpt A with
+      | .declined => "kept"
+      | _ => "fired"
+    | _, _, _ => "bad-line"
+  | _ => "bad-line"
+
 def licmAnswer (ws : List String) : String :=
   match parseS ws with
   | some p =>
@@ -392,6 +410,7 @@ def step (_ : Unit) (line : String) : Unit × String :=
     | "licm" :: rest => licmAnswer rest
     | "licmk" :: rest => licmkAnswer rest
     | "ivuse" :: rest => ivuseAnswer rest
+    | "algopt" :: rest => algoptAnswer rest
     | "lvn" :: rest => lvnAnswer rest
     | "lvnw" :: rest => lvnwAnswer rest
     | "cse" :: rest => cseAnswer rest
